@@ -18,7 +18,7 @@ MANIFEST = {
     'technique': 'symbolic execution of the real Python source with z3 (scores as free reals, sorting by solver-decided comparisons)',
 }
 
-POOL = ['f-(3; 100)', 'fa AND fb-(9; 100)', 'BRAND', 'fb AND BRAND-(4; 50)']
+POOL = ['label_freq-(3; 100)', 'fa AND fb-(9; 100)', 'BRAND', 'fb AND BRAND-(4; 50)']
 LABEL = 'label-(2; 100)'
 BOUNDS = {'quick': {'names': [1, 2, 3], 'numeric': [1, 2, 3]}, 'thorough': {'names': [3, 4], 'numeric': [3, 4]}}
 F, I1, B, I2 = POOL
